@@ -85,6 +85,9 @@ class INVTRAN(Aggregate):
 class INVBUY(Aggregate, Origcurrency):
     """OFX section 13.9.2.4.3"""
 
+    # Aggregate.optionalMutexes shadows that of the Origcurrency mixin
+    optionalMutexes = [["currency", "origcurrency"]]
+
     invtran = SubAggregate(INVTRAN, required=True)
     secid = SubAggregate(SECID, required=True)
     units = Decimal(required=True)
@@ -109,6 +112,9 @@ class INVBUY(Aggregate, Origcurrency):
 
 class INVSELL(Aggregate, Origcurrency):
     """OFX section 13.9.2.4.3"""
+
+    # Aggregate.optionalMutexes shadows that of the Origcurrency mixin
+    optionalMutexes = [["currency", "origcurrency"]]
 
     invtran = SubAggregate(INVTRAN, required=True)
     secid = SubAggregate(SECID, required=True)
@@ -185,6 +191,9 @@ class CLOSUREOPT(Aggregate):
 class INCOME(Aggregate, Origcurrency):
     """OFX section 13.9.2.4.4"""
 
+    # Aggregate.optionalMutexes shadows that of the Origcurrency mixin
+    optionalMutexes = [["currency", "origcurrency"]]
+
     invtran = SubAggregate(INVTRAN, required=True)
     secid = SubAggregate(SECID, required=True)
     incometype = OneOf(*INCOMETYPES, required=True)
@@ -200,6 +209,9 @@ class INCOME(Aggregate, Origcurrency):
 
 class INVEXPENSE(Aggregate, Origcurrency):
     """OFX section 13.9.2.4.4"""
+
+    # Aggregate.optionalMutexes shadows that of the Origcurrency mixin
+    optionalMutexes = [["currency", "origcurrency"]]
 
     invtran = SubAggregate(INVTRAN, required=True)
     secid = SubAggregate(SECID, required=True)
@@ -233,6 +245,9 @@ class JRNLSEC(Aggregate):
 class MARGININTEREST(Aggregate, Origcurrency):
     """OFX section 13.9.2.4.4"""
 
+    # Aggregate.optionalMutexes shadows that of the Origcurrency mixin
+    optionalMutexes = [["currency", "origcurrency"]]
+
     invtran = SubAggregate(INVTRAN, required=True)
     total = Decimal(required=True)
     subacctfund = OneOf(*INVSUBACCTS, required=True)
@@ -242,6 +257,9 @@ class MARGININTEREST(Aggregate, Origcurrency):
 
 class REINVEST(Aggregate, Origcurrency):
     """OFX section 13.9.2.4.4"""
+
+    # Aggregate.optionalMutexes shadows that of the Origcurrency mixin
+    optionalMutexes = [["currency", "origcurrency"]]
 
     invtran = SubAggregate(INVTRAN, required=True)
     secid = SubAggregate(SECID, required=True)
@@ -262,6 +280,9 @@ class REINVEST(Aggregate, Origcurrency):
 
 class RETOFCAP(Aggregate, Origcurrency):
     """OFX section 13.9.2.4.4"""
+
+    # Aggregate.optionalMutexes shadows that of the Origcurrency mixin
+    optionalMutexes = [["currency", "origcurrency"]]
 
     invtran = SubAggregate(INVTRAN, required=True)
     secid = SubAggregate(SECID, required=True)
@@ -316,6 +337,9 @@ class SELLSTOCK(Aggregate):
 
 class SPLIT(Aggregate, Origcurrency):
     """OFX section 13.9.2.4.4"""
+
+    # Aggregate.optionalMutexes shadows that of the Origcurrency mixin
+    optionalMutexes = [["currency", "origcurrency"]]
 
     invtran = SubAggregate(INVTRAN, required=True)
     secid = SubAggregate(SECID, required=True)
